@@ -290,9 +290,12 @@ impl<R: Reader> LocationLists<R> {
         let format = unit_encoding.format;
         let input = &mut self.debug_loclists.section.clone();
         input.skip(base.0)?;
-        input.skip(R::Offset::from_u64(
-            index.0.into_u64() * u64::from(format.word_size()),
-        )?)?;
+        let offset = index
+            .0
+            .into_u64()
+            .checked_mul(u64::from(format.word_size()))
+            .ok_or_else(|| Error::UnexpectedEof(input.offset_id()))?;
+        input.skip(R::Offset::from_u64(offset)?)?;
         input
             .read_offset(format)
             .map(|x| LocationListsOffset(base.0 + x))
